@@ -1,1 +1,4 @@
+pub mod c01;
+pub mod c02;
+pub mod c03;
 pub mod c15;
